@@ -46,3 +46,31 @@ let run_case line =
     let msgs = List.filter_map (fun a -> if a.a_out = WOk then Some (hex a.a_bytes) else None) s.lg in
     Printf.sprintf "R:%s|M:%s" (String.concat "," (List.map show_res (cut rs))) (String.concat ";" msgs)
   | _ -> failwith ("bad mlw case: " ^ line)
+
+
+(* the same W case as a Gallina equation, both sides printed from the parsed case and the extracted run *)
+let g_outcome = function WOk -> "WOk" | WIntr -> "WIntr" | WErr e -> "(WErr " ^ g_small_n e ^ ")"
+let g_op = function Flush -> "Flush" | Emit m -> "(Emit " ^ g_str m ^ ")"
+let g_ores = function
+  | OOk n -> "(OOk " ^ g_nat n ^ ")" | OErr e -> "(OErr " ^ g_small_n e ^ ")" | OIntr -> "OIntr" | OPanic -> "OPanic"
+
+let coq_header =
+  "Require Import Cadence.Base.Prelude Cadence.Model.Writer.\n" ^
+  "Definition kobs (r : list ores * st) := (fst r, map (fun a => (a_op a, a_bytes a, a_out a)) (lg (snd r))).\n"
+
+let coq_case line =
+  match tokens line with
+  | ["W"; cap; ending; ops; script] when int_of_string cap <= 600 ->
+    let ops = parse_ops ops and script = parse_script script and e = unhex ending in
+    if List.exists (function Emit m -> List.length m > 600 | Flush -> false) ops then None else begin
+      let c = nat_of_int (int_of_string cap) in
+      let (rs, s) = run c e script ops in
+      let lhs = Printf.sprintf "kobs (run %s %s %s %s)" cap (g_str e)
+          (if script = [] then "(@nil outcome)" else g_list g_outcome script)
+          (if ops = [] then "(@nil op)" else g_list g_op ops) in
+      let rhs = g_pair (if rs = [] then "(@nil ores)" else g_list g_ores rs)
+          (if s.lg = [] then "(@nil (nat * list N * outcome))"
+           else g_list (fun a -> "(" ^ g_nat a.a_op ^ ", " ^ g_str a.a_bytes ^ ", " ^ g_outcome a.a_out ^ ")") s.lg) in
+      Some (lhs ^ " = " ^ rhs)
+    end
+  | _ -> None
